@@ -311,9 +311,18 @@ def semLine (_ : Unit) (line : String) : Unit × String :=
     let semSolves : Bool := match dref with
       | some d => solutionB P d semVal
       | none => false
+    -- switch-only programs: hypotheses of the safety theorems; `Sem` solves the equations with switches.  The value of a
+    -- switch node in `Sem` is the memoised result of the node itself.
+    let swHyp : Bool := swPB P
+    -- the eager solution (every node evaluated) solves the equations, and `Sem` (demand-driven) agrees with it on every
+    -- node it demanded
+    let ev := eagerVal P
+    let semSolvesSw : Bool := swHyp && solutionSwB P ev &&
+      st.demanded.all (fun n => !P.g.nodes.contains n || semVal n == ev n)
     ((), (Json.mkObj [("outcome", Json.str oc), ("causes", jsonStrs causes), ("calls", jsonStrs calls),
                       ("demanded", toJson st.demanded), ("values", Json.mkObj vals),
-                      ("plain_hyp", Json.bool plainHyp), ("sem_solves", Json.bool semSolves)]).compress)
+                      ("plain_hyp", Json.bool plainHyp), ("sem_solves", Json.bool semSolves),
+                      ("sw_hyp", Json.bool swHyp), ("sem_solves_sw", Json.bool semSolvesSw)]).compress)
 
 end MLPE.Eng
 
